@@ -299,11 +299,50 @@ def run(tier: str) -> int:
     if len(got_containers) < len(CONTAINERS):
         raise tlc.TlcError(f"vacuous: containers without recorded paragraph: "
                            f"{sorted(set(c[0] for c in CONTAINERS) - got_containers)}")
+    # ---- sentence wrapper: Lossless / Indent / Bounded / OneLine / escapes (P1, P2, Local are C11's) ----
+    from harness import sentence
+    sconsts = dict(sentence.TIERS[tier], DoDiff=False)
+    if tier == "quick":
+        sconsts.update(MaxWords=3)
+    sdata = sentence.collect(tier, chk.seed, consts=sconsts, pairs=False)
+    chk.states += sdata["states"]
+    chk.transitions += sdata["transitions"]
+    chk.traces += sdata["traces"]
+    for e in sdata["errors"]:
+        chk.violation("NoException", e)
+    for smeta, rep, t in sdata["items"]:
+        chk.evaluations += 1
+        r = sentence.split_report(rep)
+        fails = []
+        if not r["lossless"]:
+            fails.append(("Lossless", None))
+        else:
+            if not all(t["ind"]):
+                fails.append(("Indent", None))
+            if not r["oneline"]:
+                fails.append(("OneLine", None))
+            if not r["esc_only"]:
+                fails.append(("EscapeOnlyMarkers", None))
+            fails += [("Bounded", j) for j, okj in enumerate(r["bounded"], 1) if not okj]
+        residual = []
+        for clause, j in fails:
+            if clause == "Bounded" and r["acc"]:
+                if r["t14"][j - 1] and "D14" in chk.open_findings:
+                    chk.known_finding("D14", smeta)
+                    continue
+                if r["t13"][j - 1] and "D13" in chk.open_findings:
+                    chk.known_finding("D13", smeta)
+                    continue
+            residual.append((clause, j))
+        if residual:
+            chk.violation("+".join(sorted({c for c, _ in residual})), dict(smeta, failing=residual))
+        if smeta["nlines"] > 1:
+            chk.nontriv(("s", json.dumps([t["words"], t["width"], t["minlen"], t["ii"], t["si"], t["md"]])))
     # ---- leg C ----
     reports, gen, dist = tlc.validate_traces("WrapTrace", traces, cfg=TRACE_CFG, timeout=1500)
     chk.states += dist
     chk.transitions += gen
-    chk.traces = len(traces)
+    chk.traces += len(traces)
     for t in traces:
         if t["id"] in meta:
             judge(chk, reports[t["id"]], meta[t["id"]], reports.get(alt.get(t["id"])))
